@@ -58,6 +58,9 @@ type vfC07Sys struct {
 	seq  int
 	zone *time.Location
 
+	// regress is set by the frozen regression cases: no shape is excluded
+	regress bool
+
 	history      []string
 	asyncFlushes int
 	requests     int
@@ -653,7 +656,7 @@ func (s *vfC07Sys) noteCrossing(kind string, f vfC07Filter, size int, seq []int)
 // there is nothing older, and demands that the pages, concatenated, are the
 // sequence the single large request returns.
 func (s *vfC07Sys) pageByCursor(f vfC07Filter, size int, full []int) {
-	if _, known := vfkit.KnownOpen("C07", vfC07SigCursor); known && len(s.mem) > 0 && len(s.cur)+len(s.rot) > 0 {
+	if _, known := vfkit.KnownOpen("C07", vfC07SigCursor); known && !s.regress && len(s.mem) > 0 && len(s.cur)+len(s.rot) > 0 {
 		vfC07.Excluded(vfC07SigCursor)
 
 		return
